@@ -770,11 +770,32 @@ def c20_jobs():
     for (n, mt, pt, q) in ((32, 1, 0xFE, 1), (40, 1, 1, 0), (48, 1, 1, 0), (32, 1, 3, 0), (40, 1, 8, 0), (40, 1, 7, 0), (40, 3, 0xFE, 1), (24, 2, 0x10, 1), (48, 0xFF, 0x7F, 1), (64, 3, 1, 0), (64, 3, 2, 0), (56, 1, 2, 0)):
         jobs.append(Job("c20.cpp", "h_c20_decode", defs={"NB": n, "VER": 1, "DMT": mt, "DPT": pt}, unwind=4 * n + 40, unwindset=dec_unwindset(n), tier="quick" if q else "thorough", in_max=n + 8, mem_gb=8,
                         sym="every frame byte except version, message type, the first message's flags, payload type and declared length; " + sym2, outside="frames > 64 bytes", timeout=None if q else 1800))
-    for (mt, dt, dlc, n) in ((3, 2, 4, 40), (3, 2, 9, 44), (3, 4, 3, 36), (2, 0, 0, 52), (2, 0, 0, 64)):
+    for (mt, dt, dlc, n) in ((3, 2, 4, 40), (3, 2, 9, 44), (3, 2, 9, 45), (3, 3, 12, 49), (3, 2, 4, 37), (3, 4, 3, 36), (3, 4, 3, 34), (2, 0, 0, 52), (2, 0, 0, 64)):
         jobs.append(Job("c20.cpp", "h_c20_tecmp", defs={"NB": n, "TMT": mt, "TDT": dt, "TDLC": dlc}, unwind=220,
                         unwindset={("TECMP7Decoder", None): 5, ("_M_realloc_insert", None): 5, ("_M_release", None): 3, ("_Sp_counted", None): 3},
-                        tier="quick" if (mt, dt, n) in ((3, 2, 40), (3, 4, 36), (2, 0, 52)) else "thorough", in_max=n + 8, mem_gb=6,
+                        tier="quick" if (mt, dt, n) in ((3, 2, 40), (3, 2, 45), (3, 4, 36), (2, 0, 52)) else "thorough", in_max=n + 8, mem_gb=6,
                         sym="every TECMP frame byte except routing byte, message type, data type, declared length and dlc; " + sym2, outside="frames > 64 bytes; TECMP capture-module status"))
+    for (mt, dt, dlc, n, tier) in ((3, 2, 9, 45, "quick"),):
+        jobs.append(Job("c20.cpp", "h_c20_tecmp", defs={"NB": n, "TMT": mt, "TDT": dt, "TDLC": dlc}, unwind=220, variant="o0",
+                        unwindset={("TECMP7Decoder", None): 5, ("_M_realloc_insert", None): 5, ("_M_release", None): 3, ("_Sp_counted", None): 3},
+                        tier=tier, in_max=n + 8, mem_gb=6,
+                        sym="as above, on unoptimised IR (uninitialised locals stay uninitialised stack objects); " + sym2, outside="frames > 64 bytes"))
+    # the same harnesses on unoptimised IR (variant "o0": clang -O0 + mem2reg only). At -O1 clang may give a partially
+    # initialised local a convenient constant value (LLVM undef folding), hiding the uninitialised read from the encoding.
+    import copy
+    o0 = []
+    for j in jobs:
+        if j.variant == "o0":
+            continue
+        pick = (j.entry == "h_c20_encode" and j.defs.get("K") == 1) or (j.entry == "h_c20_decode" and j.defs.get("NB") in (32, 40)) or \
+               (j.entry == "h_c20_tecmp")
+        if pick:
+            c = copy.copy(j)
+            c.variant = "o0"
+            c.tier = j.tier if (j.entry, j.defs.get("NB"), j.defs.get("L0"), j.defs.get("MINB")) in (("h_c20_encode", None, 8, 64), ("h_c20_decode", 32, None, None), ("h_c20_tecmp", 40, None, None), ("h_c20_tecmp", 36, None, None), ("h_c20_tecmp", 52, None, None)) else "thorough"
+            c.timeout = 900 if c.tier == "thorough" else None
+            o0.append(c)
+    jobs += o0
     for (a, b, t) in ((8, 5, 3), (1, 0, 0), (16, 16, 8)):
         jobs.append(Job("c20.cpp", "h_c20_reassembly", defs={"SL0": a, "SL1": b, "STR": t}, unwind=300, unwindset={("Decoder6decode", None): 3, ("_M_realloc_insert", None): 3, ("_Hashtable", None): 4, ("_M_release", None): 3},
                         tier="quick" if (a, b) == (8, 5) else "thorough", in_max=2 * (24 + a + b + t) + 8, mem_gb=8, variant="mapmodel",
@@ -782,6 +803,9 @@ def c20_jobs():
     for (bs, bv) in ((3, 1), (0, 0), (2, 2), (5, 3)):
         jobs.append(Job("c20.cpp", "h_c20_build", defs={"BS": bs, "BV": bv}, unwind=120, tier="quick" if (bs, bv) in ((3, 1), (2, 2)) else "thorough", in_max=64, mem_gb=3,
                         sym="string characters, stream ids, vendor bytes, uptime; " + sym2, outside="strings > 5 characters"))
+        if (bs, bv) in ((3, 1), (2, 2)):
+            jobs.append(Job("c20.cpp", "h_c20_build", defs={"BS": bs, "BV": bv}, unwind=120, tier="quick" if bs == 3 else "thorough", in_max=64, mem_gb=4, variant="o0", timeout=None if bs == 3 else 900,
+                            sym="as above on unoptimised IR; " + sym2, outside="strings > 5 characters"))
     return jobs
 
 
